@@ -27,7 +27,7 @@ FULL = ["i8", "u8", "i16", "u16", "i32", "u32", "i64", "u64", "f32", "f64", "f32
 RED = ["i32", "i64", "i8", "u16", "f32", "f64", "f32x4", "f32x8"]
 A64_FULL = ["i8", "u8", "i16", "u16", "i32", "u32", "i64", "u64", "f32", "f64", "f32x4", "i32x4", "f64x2", "f32x2", "i8x8", "i32x2"]
 A64_RED = ["i32", "i64", "i8", "u16", "f32", "f64", "f32x4", "f32x2"]
-VA_TYPES = ["i32", "i64", "f64", "f32x4", "u32"]
+VA_TYPES_ALL = ["i32", "i64", "f64", "f32x4", "u32", "f32x8"]
 RAND_POOL = ["i8", "u8", "i16", "u16", "i32", "i32", "u32", "i64", "i64", "u64", "f32", "f32", "f64", "f64",
              "f32x4", "f32x4", "i32x4", "f64x2", "f32x8", "i32x8", "f32x16", "mmx64", "f32x2", "k8", "k16", "k32", "k64"]
 A64_RAND_POOL = ["i8", "u8", "i16", "u16", "i32", "i32", "u32", "i64", "i64", "u64", "f32", "f32", "f64", "f64",
@@ -120,6 +120,8 @@ def gen_signatures(tier, seed, scale):
             ret = r.choice(["void", "void", "i32", "i64", "f32", "f64", "f32x4", "u8"])
             add(ret, args, origin="random")
         if has_va and not light:
+            # 256-bit vectors exist as variadic arguments on x86 only (AArch64 has no 256-bit vector type; AsmJit rejects them there)
+            VA_TYPES = [t for t in VA_TYPES_ALL if not (a64 and ap.type_size(t) > 16)]
             for n0 in (1, 2):
                 named = ["i32", "f64"][:n0]
                 for t1 in VA_TYPES:
@@ -1591,6 +1593,48 @@ def gen_interop_signatures(seed, n, vec_sizes):
     return out
 
 
+GEN_VA_SCALARS = ["i32", "u32", "i64", "u64", "f64"]
+GEN_VA_VECS = ["f32x4", "i32x4", "f64x2", "f32x8"]
+
+
+def gen_variadic_signatures(seed, n, have_avx):
+    """(ret, [args], va): 1..3 named arguments, then ints/doubles/__m128/__m128i/__m256 (already promoted types) in random order"""
+    rng = common.Rng(seed).fork("c06-interop-va")
+    out = []
+    vecs = GEN_VA_VECS if have_avx else GEN_VA_VECS[:3]
+    for i in range(n):
+        nn = rng.range(1, 3)
+        named = [rng.choice(["i32", "i64", "f64", "u8", "i16", "f32", "u32"]) for _ in range(nn)]
+        k = rng.range(1, 12 - nn)
+        shape = i % 4
+        var = []
+        for _ in range(k):
+            if shape == 0:      # vectors and doubles: the AL count matters
+                var.append(rng.choice(vecs + ["f64", "f64"]))
+            elif shape == 1:    # no vector register at all in the variadic part
+                var.append(rng.choice(["i32", "u32", "i64", "u64"]))
+            elif shape == 2:    # more than eight vector-register candidates
+                var.append(rng.choice(["f64", "f64", "f32x4", "i32x4", "i64"]))
+            else:
+                var.append(rng.choice(GEN_VA_SCALARS + vecs))
+        if shape == 2:
+            while len(var) + nn < 12:
+                var.append(rng.choice(["f64", "f32x4"]))
+        out.append((rng.choice(["void", "i32", "i64", "f64"]), named + var, nn))
+    return out
+
+
+def expected_al(vsigs, stats):
+    """what gcc and clang load into AL for the same SysV call; None where they differ or it is not a constant"""
+    orcs = ap.oracles_for("x64-linux", "sysv64")
+    res = [ap.probe_many(o, [(r, tuple(a), va) for r, a, va in vsigs], stats) for o in orcs]
+    out = []
+    for i in range(len(vsigs)):
+        vals = [r[i].get("al") for r in res]
+        out.append(vals[0] if vals[0] is not None and all(v == vals[0] for v in vals) else None)
+    return out
+
+
 def callee_source(sigs):
     """C source of one shared object: for every signature a SysV and an ms_abi callee that record what they received, and C callers"""
     L = [ap.c_typedefs("gcc"),
@@ -1601,8 +1645,30 @@ def callee_source(sigs):
          "#define REC(T, v) do { if (cal->n < 32) { __builtin_memcpy(cal->data[cal->n], &v, sizeof(T)); cal->size[cal->n] = sizeof(T); } cal->n++; } while (0)",
          "#define LD(T, p) ({ T t_; __builtin_memcpy(&t_, (p), sizeof(T)); t_; })"]
     table = []
-    for i, (ret, args) in enumerate(sigs):
+    for i, sg in enumerate(sigs):
+        ret, args = sg[0], sg[1]
+        va = sg[2] if len(sg) > 2 else None
+        al = sg[3] if len(sg) > 3 else None
         rt = "void" if ret == "void" else ap.c_type(ret)
+        names = ", ".join('"%s"' % t for t in args) or "0"
+        if va is not None:
+            # variadic callees read the unnamed part with va_arg, in the order and with the types of the signature
+            params = ", ".join("%s a%d" % (ap.c_type(t), k) for k, t in enumerate(args[:va]))
+            have_ms = all(ap.type_size(t) <= 8 for t in args[va:])    # gcc's ms_abi va_arg reads vectors by value although callers pass them by reference
+            for tag, attr, vl, vs, ve in (("s", "sysv_abi", "__builtin_va_list", "__builtin_va_start", "__builtin_va_end"),
+                                          ("m", "ms_abi", "__builtin_ms_va_list", "__builtin_ms_va_start", "__builtin_ms_va_end")):
+                if tag == "m" and not have_ms:
+                    continue
+                body = "%s ap; %s(ap, a%d); cal->n = 0; " % (vl, vs, va - 1)
+                body += " ".join("REC(%s, a%d);" % (ap.c_type(t), k) for k, t in enumerate(args[:va]))
+                for k, t in enumerate(args[va:]):
+                    body += " { %s v_ = __builtin_va_arg(ap, %s); REC(%s, v_); }" % (ap.c_type(t), ap.c_type(t), ap.c_type(t))
+                body += " %s(ap);" % ve
+                if ret != "void":
+                    body += " return LD(%s, retval);" % rt
+                L.append("__attribute__((%s, noinline)) %s %s%d(%s, ...) { %s }" % (attr, rt, tag, i, params, body))
+            table.append('  { "%s", { %s }, %d, %d, %d, { (void*)s%d, %s }, { 0, 0 } }' % (ret, names, len(args), va, -1 if al is None else al, i, ("(void*)m%d" % i) if have_ms else "0"))
+            continue
         params = ", ".join("%s a%d" % (ap.c_type(t), k) for k, t in enumerate(args)) or "void"
         body = "cal->n = 0; " + " ".join("REC(%s, a%d);" % (ap.c_type(t), k) for k, t in enumerate(args))
         if ret != "void":
@@ -1616,9 +1682,8 @@ def callee_source(sigs):
                 L.append("void c%s%d(void* fn) { %s; }" % (tag, i, call))
             else:
                 L.append("void c%s%d(void* fn) { %s r_ = %s; __builtin_memcpy(retout, &r_, sizeof r_); }" % (tag, i, rt, call))
-        names = ", ".join('"%s"' % t for t in args) or "0"
-        table.append('  { "%s", { %s }, %d, { (void*)s%d, (void*)m%d }, { cs%d, cm%d } }' % (ret, names, len(args), i, i, i, i))
-    L.append("struct GenEntry { const char* ret; const char* args[16]; int nargs; void* callee[2]; void (*caller[2])(void*); };")
+        table.append('  { "%s", { %s }, %d, -1, -1, { (void*)s%d, (void*)m%d }, { cs%d, cm%d } }' % (ret, names, len(args), i, i, i, i))
+    L.append("struct GenEntry { const char* ret; const char* args[16]; int nargs; int va; int al; void* callee[2]; void (*caller[2])(void*); };")
     L.append("struct GenEntry c06_gen_table[] = {\n%s\n};" % ",\n".join(table))
     L.append("int c06_gen_count = %d;" % len(sigs))
     return "\n".join(L) + "\n"
@@ -1661,7 +1726,15 @@ def workload_b(chk, exe_plain, exe_asan, tier, scale, cov):
     vec_sizes = [16] + ([32] if flags else []) + ([64] if "-mavx512f" in flags else [])
     ngen = max(6, int((240 if tier == "quick" else 6000) * scale))
     per_lib = 60 if tier == "quick" else 250
-    gsigs = gen_interop_signatures(chk.seed, ngen, vec_sizes)
+    gsigs = [(r, a, None, None) for r, a in gen_interop_signatures(chk.seed, ngen, vec_sizes)]
+    nva = max(4, int((120 if tier == "quick" else 3000) * scale))
+    vsigs = gen_variadic_signatures(chk.seed, nva, bool(flags))
+    pstats = ap.Stats()
+    als = expected_al(vsigs, pstats)
+    vfull = [(r, a, va, al) for (r, a, va), al in zip(vsigs, als)]
+    # spread the variadic signatures over the libraries
+    gsigs = gsigs + vfull
+    per_lib = per_lib + (per_lib * len(vfull)) // max(len(gsigs) - len(vfull), 1) + 1
     chunks = [gsigs[i:i + per_lib] for i in range(0, len(gsigs), per_lib)]
     libs = common.parallel_map(lambda ch: build_callee_lib(ch, flags), chunks)
     compiled = sum(1 for _, fresh in libs if fresh)
@@ -1688,7 +1761,7 @@ def workload_b(chk, exe_plain, exe_asan, tier, scale, cov):
         if "--callees" in argv:
             k = int(argv[argv.index("--seed") + 1]) - chk.seed - 100
             src_sigs = chunks[k] if 0 <= k < len(chunks) else chunks[0]
-            case["callee_sigs"] = [[r, a] for r, a in src_sigs]
+            case["callee_sigs"] = [list(x) for x in src_sigs]
         if rep:
             chk.violation(san_key("interop", rep),
                           "sanitizer report during `%s`: %s %s" % (" ".join(argv), rep["kind"], rep["frames"][:5]), case)
@@ -1723,7 +1796,9 @@ def workload_b(chk, exe_plain, exe_asan, tier, scale, cov):
         "interop_generated_functions_built": gen["built"],
         "interop_generated_rejected_by_asmjit": gen["rejects"],
         "interop_generated_rejected_samples": gen["samples"][:6],
-        "interop_generated_samples": ["%s(%s)" % (r, ",".join(a)) for r, a in gsigs[:4]],
+        "interop_generated_samples": ["%s(%s)" % (x[0], ",".join(x[1])) for x in gsigs[:3]] + ["%s(%s) variadic from %d, compilers' AL=%s" % (x[0], ",".join(x[1]), x[2], x[3]) for x in vfull[:3]],
+        "interop_variadic_signatures": len(vfull),
+        "interop_variadic_with_compiler_al_verdict": sum(1 for x in vfull if x[3] is not None),
         "interop_callee_libraries": len(libs),
         "interop_callee_libraries_compiled": compiled,
     })
@@ -1792,7 +1867,7 @@ def replay(chk, rp, exe_asan, exe_plain):
     else:
         exe = exe_asan if case.get("flavour") == "asan" else exe_plain
         if "callee_sigs" in case and "--callees" in case["argv"]:
-            so, _ = build_callee_lib([(r, a) for r, a in case["callee_sigs"]], cpu_flags())
+            so, _ = build_callee_lib([tuple(x) for x in case["callee_sigs"]], cpu_flags())
             case["argv"][case["argv"].index("--callees") + 1] = so
         rc, out, err = common.run_child([exe] + case["argv"], timeout=1800)
         rep = common.sanitizer_report(err)
